@@ -22,8 +22,9 @@ Clauses (each returns the first violating connection):
                       of the original connection; a full one a master secret never seen before.
   6. freshIds       – a new session's identifier is 32 bytes long and differs from every
                       identifier seen before in the history.
-  7. failedNotReoffered – the session in use by a connection that failed at the client is not
-                      offered by any later connection (unless the harness itself copied it).
+  7. failedNotReoffered – a session that the client offered in, or that was in use (named by
+                      the ServerHello) by, a connection that failed at the client is not offered
+                      by any later connection (unless the harness itself copied it).
 
 The documented constant (identifier length 32) is a literal here. Core Lean only.
 -/
@@ -88,9 +89,11 @@ starts with a stale copy) -/
 def tainted (h : List Conn) : List String :=
   h.foldl (fun acc c => if c.1.staleCopy then acc ++ c.2.off.toList else acc) []
 
-/-- sessions in use by connections that failed at the client -/
+/-- sessions whose handshake ended in a fatal error at the client: the session the client
+OFFERED in such a connection (whether or not the server accepted it) and the session named by
+the ServerHello (the one in use) -/
 def failedIds (before : List Conn) : List String :=
-  before.foldl (fun acc c => if !c.2.cOk then acc ++ c.2.ret.toList else acc) []
+  before.foldl (fun acc c => if !c.2.cOk then acc ++ c.2.off.toList ++ c.2.ret.toList else acc) []
 
 def checkOne (all before : List Conn) (i : Nat) (d : Desc) (s : Seen) : Option (String × String) :=
   let res := resumed s
